@@ -1469,7 +1469,7 @@ def inject_id_state(run):
         # ids in another valid lexical form of xsd:unsignedInt (zero-padded), holes below them
         for s in slides:
             for i, c in enumerate(xp(s._element, "//p:cNvPr")[1:]):
-                c.set("id", "%0*d" % (r.choice([3, 4, 10]), 3 + i * r.choice([1, 2])))
+                c.set("id", r.choice(["%s", "%s", " %s", "+%s", "%s\n"]) % ("%0*d" % (r.choice([3, 4, 10]), 3 + i * r.choice([1, 2]))))  # (white space collapses, a plus sign is allowed)
     if kind in ("huge", "mixed"):
         s = r.choice(slides)
         c = xp(s._element, "//p:cNvPr")[-1]
